@@ -1,4 +1,6 @@
-// unit `txt`: the text-diff builder TextDiffConfig::diff on top of the whole capture pipeline
+// unit `txt`: the text-diff builder TextDiffConfig::diff and the text entry points diff_lines / diff_words / diff_chars
+// (generic over `T: DiffableStrRef`, tokenizers through the trait-level contract of diffablestr.rs) on top of the whole
+// capture pipeline
 //@@ include prelude.rs
 //@@ include hook.rs
 //@@ include lcsspec.rs
@@ -18,8 +20,10 @@
 //@@ include cleanup.rs
 //@@ include compact.rs
 //@@ include common.rs
+//@@ include tokpart.rs
 //@@ include diffablestr.rs
 //@@ include textdiff_spec.rs
 //@@ include textdiff.rs
+//@@ props ^DiffableStrRef for T::as_diffable_str$|^lemma_entry_pre_bytes$|^lemma_tokpart_ : C04 C02
 //@@ props ^TextDiffConfig::|^IdentifyDistinct::|^Index for OffsetLookup|^Deadline::|^duration_to_deadline$ : C02 C04 C17
 fn main() {}
